@@ -162,9 +162,12 @@ def split_ranges(intsize, step, start, end):
 
         not_mask = ~mask & ((1 << intsize + 1) - 1)
         nextstart = (start + diff if haslower else start) & not_mask
-        nextend = (end - diff if hasupper else end) & not_mask
+        # (end - diff is negative when the range ends inside the lowest block
+        # at this precision: masking it would turn it into a huge number)
+        lowered = end - diff if hasupper else end
+        nextend = lowered & not_mask
 
-        if shift + step >= intsize or nextstart > nextend:
+        if shift + step >= intsize or lowered < 0 or nextstart > nextend:
             yield (start, setbits(end), shift)
             break
 
